@@ -849,11 +849,10 @@ class DynDiGraph(nx.DiGraph):
             if u is None:
                 return int(self.size(t))
             elif u is not None and v is not None:
-                if v in self._succ[u]:
-                    if self.__presence_test(u, v, t):
-                        return 1
-                    else:
-                        return 0
+                if v in self._succ[u] and self.__presence_test(u, v, t):
+                    return 1
+                else:
+                    return 0
 
     def has_interaction(self, u, v, t=None):
         """Return True if the interaction (u,v) is in the graph at time t.
